@@ -6,7 +6,7 @@ ID = 'C07'
 N = {'quick': 1500, 'thorough': 12000}
 SEARCH_N = {'quick': 800, 'thorough': 4000}
 SHARD = 125
-RULE = ('in-memory files: 1..3 dimensions (lengths 1..4, 0..2 unlimited, used or unused), 1..4 variables of rank 0..3 over dtypes '
+RULE = ('float cells of masked and plain variables (f4, f8) include nan, +inf, -inf, -0.0 and denormals, compared by bit pattern; in-memory files: 1..3 dimensions (lengths 1..4, 0..2 unlimited, used or unused), 1..4 variables of rank 0..3 over dtypes '
         'b B h H i I q Q f d c (restricted to b h i f d c for the three classic flavours), plain and masked variables with fill given by '
         'the masked array alone / missing_value / fill_value / both equal / both different / a hidden _FillValue, unmasked cells equal to the '
         'fill (adversarial), global and variable attributes of kind str / int / float / int array / float array / bool; every case is saved '
@@ -17,7 +17,7 @@ TRUSTED = ['netCDF-C / HDF5 / netCDF4-python store and return a representable im
            'attribute values are compared by value (int64 <-> int32 and float32 <-> float64 representation changes of attributes are not distinguished); '
            'the _FillValue attribute added by netCDF is not counted as an attribute change']
 ASSUMPTIONS = ['no attribute is called scale_factor / add_offset / valid_min / valid_max / valid_range (netCDF4-python would rescale or mask on read)',
-               'no NaN cells; integer attributes fit int32 in classic flavours',
+               'integer attributes fit int32 in classic flavours',
                'character variables are unmasked S1 arrays; string (vlen) variables, groups and compound types are not generated']
 
 CLASSIC = ['NETCDF3_CLASSIC', 'NETCDF3_64BIT_OFFSET', 'NETCDF4_CLASSIC']
@@ -50,6 +50,11 @@ def _cellval(rng, dt):
     if dt == 'c':
         return rng.choice(['a', 'b', 'Z', ' ', '0'])
     if dt in 'fd':
+        if rng.random() < 0.18:
+            # special values: must come back unmasked and bit-identical
+            return rng.choice([float('nan'), float('inf'), float('-inf'), -0.0,
+                               (1e-45 if dt == 'f' else 5e-324), (-3e-45 if dt == 'f' else -1.5e-323),
+                               (1e-39 if dt == 'f' else 2e-310)])
         v = rng.choice([0.0, 1.0, -2.5, 3.75, 1e-3, 123456.789, -1e10, 2.0 ** -20, 7.0, -0.0, 1e30])
         if rng.random() < 0.5:
             v = rng.uniform(-1000, 1000)
